@@ -184,6 +184,17 @@ pub fn generate(seed: u64, tier: Tier) -> Scenario {
         let id = mk_utxo(&mut r, &mut w, a, assets);
         off_ids.push(id);
     }
+    // one scenario in twenty: wallet UTxOs that carry a reference script (spending them costs the tiered fee)
+    if r.chance(1, 20) {
+        w.scripts.push(ScriptSpec::Plutus { lang: 2, len: *r.pick(&[10u32, 500, 3000]), fill: 3 });
+        let sid = (w.scripts.len() - 1) as u16;
+        for id in off_ids.iter() {
+            if r.chance(1, 3) {
+                w.utxos[*id].script_ref = Some(sid);
+                w.utxos[*id].coin += sess::approx_min_ada(&knobs, 3100);
+            }
+        }
+    }
     // make outpoints unique (ledger-valid world)
     let mut seen = BTreeSet::new();
     for u in w.utxos.iter_mut() {
@@ -258,6 +269,27 @@ fn truth_total(w: &World, ins: &exec::InList) -> Option<GVal> {
     Some(t)
 }
 
+/// The pre-state builder with the pre-existing inputs plus the given world UTxOs as inputs, added as
+/// whole UTxOs (so that reference scripts they carry are charged) — the measuring device of rules 4 and 5.
+fn with_inputs(sc: &Scenario, s: &SelectObs, extra: &[usize]) -> Option<csl::TransactionBuilder> {
+    let w = &sc.world;
+    let mut inb = csl::TxInputsBuilder::new();
+    let mut seen = BTreeSet::new();
+    for (op, _) in &s.pre_inputs {
+        let i = w.find_outpoint(&op.0, op.1)?;
+        seen.insert(w.outpoint(i));
+        inb.add_regular_utxo(&w.utxo(i)).ok()?;
+    }
+    for i in extra {
+        if seen.insert(w.outpoint(*i)) {
+            inb.add_regular_utxo(&w.utxo(*i)).ok()?;
+        }
+    }
+    let mut b = s.pre.clone();
+    b.set_inputs(&inb);
+    Some(b)
+}
+
 pub fn check_select(sc: &Scenario, s: &SelectObs, out: &mut Outcome, dup_class: &str) {
     let w = &sc.world;
     let cls = |base: &str| -> String {
@@ -285,15 +317,9 @@ pub fn check_select(sc: &Scenario, s: &SelectObs, out: &mut Outcome, dup_class: 
         // rule 5: largest-first reports insufficiency only if everything offered does not suffice
         if let Res::Err(e) = &s.res {
             if e.contains("UTxO Balance Insufficient") && matches!(s.strategy, Strategy::LF | Strategy::LFMA) && !s.combined {
-                let mut b = s.pre.clone();
-                let mut ok = true;
-                for i in &s.offered {
-                    let u = &w.utxos[*i];
-                    #[allow(deprecated)]
-                    if b.add_regular_input(&w.address(&u.addr), &w.input_of(u), &w.value(u.coin, &u.assets)).is_err() {
-                        ok = false;
-                    }
-                }
+                let measured = with_inputs(sc, s, &s.offered);
+                let ok = measured.is_some();
+                let b = measured.unwrap_or_else(|| s.pre.clone());
                 if ok {
                     if let (Ok(ti), Ok(to), Ok(mf)) = (b.get_total_input(), b.get_total_output(), b.min_fee()) {
                         let ti = GVal::of_csl(&ti);
@@ -490,7 +516,6 @@ fn check_lf(sc: &Scenario, s: &SelectObs, out: &mut Outcome) {
             out.violate("C08.lf_stop", "lf_added_when_not_needed", format!("op {}: builder already covered ({} >= {} + {}) but largest-first added inputs", s.op, pti.coin, pto.coin, pmf));
             return;
         }
-        let mut b = s.pre.clone();
         let mut all: Vec<usize> = vec![];
         if shortcut {
             all.push(s.offered.len() - 1);
@@ -502,13 +527,11 @@ fn check_lf(sc: &Scenario, s: &SelectObs, out: &mut Outcome) {
                 }
             }
         }
-        for p in all {
-            let u = &w.utxos[s.offered[p]];
-            #[allow(deprecated)]
-            if b.add_regular_input(&w.address(&u.addr), &w.input_of(u), &w.value(u.coin, &u.assets)).is_err() {
-                return;
-            }
-        }
+        let extra: Vec<usize> = all.iter().map(|p| s.offered[*p]).collect();
+        let b = match with_inputs(sc, s, &extra) {
+            Some(b) => b,
+            None => return,
+        };
         if let (Ok(ti), Ok(to), Ok(mf)) = (b.get_total_input(), b.get_total_output(), b.min_fee()) {
             let short = u64::from(ti.coin()) < u64::from(to.coin()).saturating_add(u64::from(mf));
             out.count("c08.lf_stop_checked", 1);
